@@ -18,11 +18,16 @@ pub struct SweepStats {
 pub fn budgets_on(total_len: usize) {
     syntax::verif::reset(400 * (total_len as u64 + 16) + 100_000);
     ide::verif::reset(10_000);
+    // records visited by field lookups and subclass tests: linear in the text for every generator of
+    // the harness (a lookup visits each ancestor once); a walk that follows every *path* of a class
+    // lattice is exponential in its depth
+    ide::verif::reset_walks(1_000_000 + 4_000 * total_len as u64);
 }
 
 pub fn budgets_off() {
     syntax::verif::reset(u64::MAX);
     ide::verif::reset(u64::MAX);
+    ide::verif::reset_walks(u64::MAX);
 }
 
 fn visit_symbol(sym: &DocumentSymbol, file: FileId, visit: &mut dyn FnMut(&'static str, FileId, usize, usize), n: &mut usize) {
